@@ -741,7 +741,7 @@ func (e *env) trCall(x *ECall) (Val, XT, error) {
 		case "rheld":
 			return app("=", h, "2"), xtBool, nil
 		}
-		return app(">=", h, "1"), xtBool, nil
+		return not(app("=", h, "0")), xtBool, nil
 	case "nolocks":
 		return app("=", g.svGet(e.st, "$held", "(Array Ref Int)"), "((as const (Array Ref Int)) 0)"), xtBool, nil
 	case "fresh":
